@@ -12,39 +12,7 @@ mod h {
     }
 
     fn count(e: u8) -> usize {
-        let (log, n) = unsafe { (LOG, N) };
-        let mut c = 0;
-        let mut i = 0;
-        while i < 16 {
-            if i < n && log[i] == e {
-                c += 1;
-            }
-            i += 1;
-        }
-        c
-    }
-    fn first(e: u8) -> usize {
-        let (log, n) = unsafe { (LOG, N) };
-        let mut i = 0;
-        while i < 16 {
-            if i < n && log[i] == e {
-                return i;
-            }
-            i += 1;
-        }
-        usize::MAX
-    }
-    fn last(e: u8) -> usize {
-        let (log, n) = unsafe { (LOG, N) };
-        let mut r = usize::MAX;
-        let mut i = 0;
-        while i < 16 {
-            if i < n && log[i] == e {
-                r = i;
-            }
-            i += 1;
-        }
-        r
+        unsafe { COUNT[e as usize] as usize }
     }
 
     fn handle(m: &SharedModuleData) -> TypedFunc<(), fn()> {
@@ -57,13 +25,11 @@ mod h {
     macro_rules! destruction_order {
         ($name:ident, $perm:expr) => {
     #[kani::proof]
-    #[kani::unwind(18)]
+    #[kani::unwind(5)]
     fn $name() {
-        unsafe {
-            N = 0;
-        }
-        let roto_constants = HashMap { vals: vec![RotoConstant::new(8, 8, const_drop), RotoConstant::new(24, 8, const_drop)], _k: PhantomData };
-        let constants = HashMap { vals: vec![ConstantValue], _k: PhantomData };
+        reset();
+        let roto_constants = HashMap { vals: [Some(RotoConstant::new(8, 8, const_drop)), Some(RotoConstant::new(24, 8, const_drop))], _k: PhantomData };
+        let constants = HashMap { vals: [Some(ConstantValue), None], _k: PhantomData };
         let fns: Vec<Arc<Box<dyn Any>>> = vec![Arc::new(Box::new(Closure) as Box<dyn Any>)];
         let package = SharedModuleData::new(JITModule, constants, roto_constants, fns);
         let h1 = handle(&package);
@@ -79,7 +45,7 @@ mod h {
         assert!(count(FREE_MEMORY) == 1, "OBL:C11.drop.machine_code_freed_exactly_once_after_last_owner");
         assert!(count(CONST_DROP_FN) == 2, "OBL:C11.drop.every_script_constant_dropped_exactly_once");
         assert!(count(RUNTIME_CONST) == 1 && count(REGISTERED_FN) == 1, "OBL:C11.drop.registered_constants_and_closures_released_exactly_once");
-        assert!(last(CONST_DROP_FN) < first(FREE_MEMORY), "OBL:C11.drop.script_constants_dropped_before_their_drop_code_is_freed");
+        assert!(unsafe { CONST_DROPS_AT_FREE } == 2, "OBL:C11.drop.script_constants_dropped_before_their_drop_code_is_freed");
         kani::cover!(true, "COV:C11.drop.order_reached");
     }
         };
@@ -98,13 +64,11 @@ mod h {
     }
 
     #[kani::proof]
-    #[kani::unwind(18)]
+    #[kani::unwind(5)]
     fn canary_c11_u1_destruction_order() {
-        unsafe {
-            N = 0;
-        }
-        let roto_constants = HashMap { vals: vec![RotoConstant::new(8, 8, const_drop)], _k: PhantomData };
-        let constants = HashMap { vals: vec![], _k: PhantomData };
+        reset();
+        let roto_constants = HashMap { vals: [Some(RotoConstant::new(8, 8, const_drop)), None], _k: PhantomData };
+        let constants = HashMap { vals: [None, None], _k: PhantomData };
         let package = SharedModuleData::new(JITModule, constants, roto_constants, Vec::new());
         let h1 = handle(&package);
         drop(package);
